@@ -30,7 +30,7 @@ def wire_operand(op):
     raise ValueError(op)
 
 
-def num(v, rng, allow_bare_octal=True):
+def num(v, rng, allow_bare_octal=True, chars=True):
     """a numeric literal denoting v, in a random spelling"""
     neg = v < 0
     a = -v if neg else v
@@ -39,13 +39,14 @@ def num(v, rng, allow_bare_octal=True):
         forms += ["%o" % a] * 4
     # character literals: 'c is the code of c, "cd is c in the low byte and d in the high byte (as in MACRO-11)
     lo, hi = a & 0xFF, a >> 8
-    if a < 0x80 and chr(a).isalnum():
+    # (not for negative values: '-' before a character literal is a prefix operator, which may not follow an infix one)
+    if not neg and chars and a < 0x80 and chr(a).isalnum():
         forms += ["'" + chr(a)] * 3
-    elif a < 0x8000 and chr(lo).isalnum() and chr(hi).isalnum() and lo < 0x80:
+    elif not neg and chars and a < 0x8000 and chr(lo).isalnum() and chr(hi).isalnum() and lo < 0x80:
         forms += ['"' + chr(lo) + chr(hi)] * 6
     s = rng.choice(forms)
     if s[0] in "'\"":
-        return ("-" + s) if neg else s
+        return s
     if rng.random() < 0.3:
         s = s.upper() if not s.endswith(".") else s
     return ("-" + s) if neg else s
